@@ -231,7 +231,7 @@ def value_alphabet(kind, tmpl_cal, with_cal, small=False, rich=False):
         dates = [d for d in dates if d[0] == "ISO"]
     if small:
         dates = list(dates)
-        keep = dates[:6] + [d for d in dates[6:] if d[1:] in ((9999, 12, 31), (-9998, 1, 1)) or d[1] % 100 in (31, 45, 81) and d[1] > 0]
+        keep = dates[:6] + [d for d in dates[6:] if d[1:] in ((9999, 12, 31), (-9998, 1, 1))]
         return tuple([d + T.TIME_VALUES[0] for d in keep] + [dates[1] + t for t in T.TIME_VALUES[1:9]])
     return tuple(T.datetime_values(list(dates), T.TIME_VALUES))
 
@@ -1314,6 +1314,9 @@ def chain_worker(kind):
                 continue
             tcal = tmpl[0] if kind in ("date", "datetime", "instant") else None
             values = value_alphabet(kind, tcal, spec is not None and "cal" in spec.names, True)
+            if tcal is not None and "tdy" in ops:
+                extra = T.pivot_dates(tcal)
+                values = tuple(values) + tuple(d if kind == "date" else d + (1, 2, 3, 0) for d in extra)
             bad = None
             for v in values:
                 try:
